@@ -27,7 +27,7 @@ RULE = ("fault sequences over the 11-symbol alphabet {H healthy keep-alive, Hc h
 ASSUMPTIONS = [
     "healthy replies are computed from the request actually received, so a retried request is answered consistently",
     "'refuse' closes the listener (owned by the peer's accept thread, acknowledged) for the duration of the client call",
-    "S draws its status from {400, 404, 500, 503, 302, 202}; N uses 502; B uses 500/401/304/201 with Content-Length: 0",
+    "S draws its status from {400, 404, 500, 503, 302, 202}; N uses 502; B uses 500/401/304/201 with Content-Length: 0 or 204/304 without any length header (kept alive)",
 ]
 TECHNIQUE = "scripted raw-socket fault peer + per-call token oracle over enumerated fault sequences (runtime monitoring, fault enumeration)"
 LEVEL_TEXT = ("Every fault sequence up to the stated length is injected into real exchanges between a real ServerProxy and a "
@@ -45,7 +45,13 @@ class Script(object):
         self.q = collections.deque(symbols)
         self.lock = threading.Lock()
         self.consumed = []      # (symbol, status) in order of consumption, reset per call by the driver
+        self.by_token = {}      # token carried by the request -> [(symbol, status)]: sound attribution even when a
+        #                         request of an already failed call arrives late
         self.rng = rng
+
+    def faults_remaining(self):
+        with self.lock:
+            return any(x != "H" for x in self.q)
 
     def head(self):
         with self.lock:
@@ -80,9 +86,13 @@ def make_decide(peer_box, script):
             action = {"send": http_response(502, "Bad Gateway", b"upstream said no", keep_alive=False,
                                             content_length=False), "close": True}
         elif sym == "B":
-            status, reason = script.rng.choice([(500, "Internal Server Error"), (401, "Unauthorized"), (304, "Not Modified"),
-                                             (201, "Created")])
-            action = {"send": http_response(status, reason, b"", keep_alive=True), "close": False}
+            status, reason, with_length = script.rng.choice([
+                (500, "Internal Server Error", True), (401, "Unauthorized", True), (304, "Not Modified", True),
+                (201, "Created", True),
+                # statuses that never carry a body: no Content-Length at all, connection kept alive
+                (204, "No Content", False), (304, "Not Modified", False)])
+            action = {"send": http_response(status, reason, b"", keep_alive=True, content_length=with_length),
+                      "close": False}
         elif sym == "T":
             full = healthy_reply(req, keep_alive=False)
             cut = max(full.index(b"\r\n\r\n") + 5, len(full) - script.rng.randint(1, 12))
@@ -92,6 +102,15 @@ def make_decide(peer_box, script):
         else:
             action = {"send": http_response(200, "OK", script.rng.choice([b"<html>oops</html>", b"not json", b"{",
                                                                           b"\xff\xfe"]), keep_alive=True), "close": False}
+        tok = None
+        try:
+            import json as _json
+            msg = _json.loads(req.body.decode("utf-8"))
+            tok = (msg.get("params") or [None])[0]
+        except Exception:
+            pass
+        with script.lock:
+            script.by_token.setdefault(tok, []).append((sym or "H*", status))
         script.consumed.append((sym or "H*", status))
         # a refusal that must meet the transport's automatic retry
         if sym in ("D", "X") and script.head() == "R":
@@ -108,19 +127,18 @@ def play(ctx, rng, fam, seq, peer, box, label):
     case = {"family": fam, "sequence": list(seq), "label": label}
     calls = []
     n = 0
-    healthy_after = 0
-    failures_after = []
+    after_faults = []      # outcomes of the calls started when no fault symbol remained
     has_fault = any(s not in ("H", "Hc") for s in seq)
+    prev_ok = True         # the previous call returned: the connection state is known to be clean
+    uid = "%x" % (id(script) & 0xffffff)
     while True:
-        exhausted_before = script.head() is None
-        if exhausted_before:
-            if healthy_after >= 3:
-                break
-            healthy_after += 1
-        n += 1
-        if n > len(seq) + 6:
+        quiet = not script.faults_remaining()
+        if quiet and len(after_faults) >= 3:
             break
-        token = "t%d-%d" % (id(script) % 1000, n)
+        n += 1
+        if n > len(seq) + 8:
+            break
+        token = "t%s-%d" % (uid, n)
         script.consumed = []
         if script.head() == "R":
             peer.refuse()
@@ -128,47 +146,51 @@ def play(ctx, rng, fam, seq, peer, box, label):
             out = ("return", proxy.echo(token))
         except BaseException as ex:  # noqa
             out = ("raise", ex)
-        consumed = list(script.consumed)
         if peer.refusing.is_set():
             if script.head() == "R":
                 script.pop()
-                consumed.append(("R", None))
+                with script.lock:
+                    script.by_token.setdefault(token, []).append(("R", None))
             peer.accept_again()
-        calls.append((token, [c[0] for c in consumed], out[0] if out[0] == "return" else type(out[1]).__name__))
+        with script.lock:
+            own = list(script.by_token.get(token, []))
+        calls.append((token, [c[0] for c in own], out[0] if out[0] == "return" else type(out[1]).__name__))
         ctx.count("judged:calls")
-        for c in consumed:
+        for c in own:
             ctx.count("symbol-consumed:" + c[0])
-        last = consumed[-1] if consumed else (None, None)
-        ccase = dict(case, call=n, consumed=[c[0] for c in consumed])
+        last = own[-1] if own else (None, None)
+        ccase = dict(case, call=n, consumed=[c[0] for c in own], previous_call_succeeded=prev_ok)
         if out[0] == "return":
             if out[1] != {"token": token}:
-                ctx.violate("foreign-or-stale-result-returned:after-" + str(last[0]), ccase,
+                ctx.violate("foreign-or-stale-result-returned", ccase,
                             {"returned": out[1], "own_token": token, "calls": calls})
-            elif last[0] not in ("H", "Hc", "H*"):
-                ctx.violate("value-returned-although-last-exchange-was-" + str(last[0]), ccase, {"calls": calls})
+            elif prev_ok and last[0] not in ("H", "Hc", "H*"):
+                ctx.violate("value-returned-although-own-exchange-was-" + str(last[0]), ccase, {"calls": calls})
         else:
             ex = out[1]
-            if last[0] in ("S", "N", "B"):
-                ok = isinstance(ex, jsonrpclib.TransportError) and getattr(ex, "errcode", None) == last[1]
-                if ok and fam == "tcp":
-                    # the URL the call was made to: host:port + handler
-                    ok = str(ex.url) == "127.0.0.1:%d/rpc" % peer.port
-                if not ok:
-                    ctx.violate("non-200-not-surfaced-as-TransportError:" + last[0], ccase,
-                                {"raised": ex, "status": last[1], "url": getattr(ex, "url", None)})
-            elif last[0] in ("H", "Hc", "H*"):
-                if exhausted_before:
-                    failures_after.append((n, type(ex).__name__))
-                else:
-                    ctx.violate("healthy-exchange-raised-%s" % type(ex).__name__, ccase, {"raised": ex, "calls": calls})
-            if exhausted_before and last[0] not in ("H", "Hc", "H*"):
-                failures_after.append((n, type(ex).__name__))
+            statuses = [c[1] for c in own if c[1] is not None]
+            if isinstance(ex, jsonrpclib.TransportError):
+                ctx.count("judged:transport-errors")
+                if getattr(ex, "errcode", None) not in statuses:
+                    ctx.violate("TransportError-with-a-status-never-sent-to-this-call", ccase,
+                                {"errcode": getattr(ex, "errcode", None), "own_statuses": statuses, "calls": calls})
+                elif fam == "tcp" and str(ex.url) != "127.0.0.1:%d/rpc" % peer.port:
+                    ctx.violate("TransportError-without-the-url", ccase, {"url": getattr(ex, "url", None)})
+            elif prev_ok and last[0] in ("S", "N", "B"):
+                # clean connection, this call's own (last) exchange was a non-200 reply
+                ctx.violate("non-200-not-surfaced-as-TransportError:" + last[0], ccase,
+                            {"raised": ex, "status": last[1]})
+        if quiet:
+            after_faults.append((n, out[0] if out[0] == "return" else type(out[1]).__name__))
+        prev_ok = out[0] == "return"
     ctx.case((fam, tuple(seq)), nontrivial=has_fault)
     ctx.count("judged:sequences")
-    # recovery: at most the first healthy call after the faults may fail
-    late = [f for f in failures_after if f[0] > (n - healthy_after) + 1]
-    if late or len(failures_after) > 1:
-        ctx.violate("proxy-did-not-recover-after-faults-stopped", case, {"failures": failures_after, "calls": calls})
+    # recovery: once no fault remains, at most the first call may fail
+    failures = [a for a in after_faults if a[1] != "return"]
+    if len(failures) > 1 or (failures and failures[0][0] != after_faults[0][0]):
+        ctx.violate("proxy-did-not-recover-after-faults-stopped", case, {"after_faults": after_faults, "calls": calls})
+    if len(after_faults) < 3:
+        ctx.count("sequences-cut-short")
     try:
         proxy("close")()
     except Exception:
@@ -217,7 +239,7 @@ def finalize(m, tier):
         if c.get(k, 0) < lo:
             out.append("monitor counter %s too low (%d < %d)" % (k, c.get(k, 0), lo))
     for s in SYMBOLS:
-        if c.get("symbol-consumed:" + s, 0) < 50:
+        if c.get("symbol-consumed:" + s, 0) < 40:
             out.append("fault symbol %s consumed only %d times" % (s, c.get("symbol-consumed:" + s, 0)))
     return out
 
